@@ -211,6 +211,8 @@ impl Lab {
             return Err(format!("node panicked: {:?}", self.sim.panics[0]));
         }
         self.sim.settle();
+        // effects of a rejected datagram may only show after the replay-window thresholds moved (two ticks)
+        self.sim.run(3);
         if !(self.sim.is_connected(T, Q) && self.sim.is_connected(Q, T)) {
             return Err("T lost its healthy peer Q".into());
         }
@@ -255,6 +257,8 @@ impl Lab {
         if !(self.sim.is_connected(T, P) && self.sim.is_connected(P, T)) {
             return Err("T and P do not get connected by the genuine handshake".into());
         }
+        // effects of a rejected datagram may only show after the replay-window thresholds moved (two ticks)
+        self.sim.run(3);
         if !(self.sim.is_connected(T, Q) && self.sim.is_connected(Q, T)) {
             return Err("T lost its healthy peer Q".into());
         }
